@@ -361,7 +361,13 @@ func NewMemFS(r Root) *MemFS {
 	return m
 }
 
-type info struct{ n *Node }
+// info is the FileInfo of a node. lstat=true is what a directory listing (fs.DirEntry) reports: for a
+// symlink the link itself (mode symlink, size = length of a short target string). lstat=false is what
+// fs.Stat and Stat() on an opened file report: they follow the link (regular file, the target's size).
+type info struct {
+	n     *Node
+	lstat bool
+}
 
 func (i info) Name() string {
 	if j := strings.LastIndex(i.n.Path, "/"); j >= 0 {
@@ -369,12 +375,20 @@ func (i info) Name() string {
 	}
 	return i.n.Path
 }
-func (i info) Size() int64 { return int64(i.n.Size) }
+func (i info) Size() int64 {
+	if i.n.Kind == 'l' && i.lstat {
+		return 1
+	}
+	return int64(i.n.Size)
+}
 func (i info) Mode() fs.FileMode {
 	switch i.n.Kind {
 	case 'd':
 		return fs.ModeDir | 0o755
 	case 'l':
+		if !i.lstat {
+			return 0o644
+		}
 		return fs.ModeSymlink | 0o777
 	case 's':
 		return fs.ModeNamedPipe | 0o644
@@ -399,7 +413,7 @@ func (f *file) Stat() (fs.FileInfo, error) {
 	if f.n.Kind != 'd' && f.m.f.FileStat[f.n.Path] {
 		return nil, &fs.PathError{Op: "stat", Path: f.n.Path, Err: errInj}
 	}
-	return info{f.n}, nil
+	return info{f.n, false}, nil
 }
 func (f *file) Read(p []byte) (int, error) {
 	if f.n.Kind == 'd' {
@@ -430,7 +444,7 @@ func (f *file) ReadDir(n int) ([]fs.DirEntry, error) {
 	if n != 1 {
 		var out []fs.DirEntry
 		for _, k := range f.n.Kids {
-			out = append(out, info{k})
+			out = append(out, info{k, true})
 		}
 		return out, nil
 	}
@@ -442,7 +456,7 @@ func (f *file) ReadDir(n int) ([]fs.DirEntry, error) {
 	if k >= len(f.n.Kids) {
 		return nil, io.EOF
 	}
-	return []fs.DirEntry{info{f.n.Kids[k]}}, nil
+	return []fs.DirEntry{info{f.n.Kids[k], true}}, nil
 }
 
 // GiContent renders a .gitignore file.
@@ -499,7 +513,7 @@ func (m *MemFS) Stat(name string) (fs.FileInfo, error) {
 	if !ok {
 		return nil, &fs.PathError{Op: "stat", Path: name, Err: fs.ErrNotExist}
 	}
-	return info{n}, nil
+	return info{n, false}, nil
 }
 
 // ReadDir implements fs.ReadDirFS.
@@ -510,7 +524,7 @@ func (m *MemFS) ReadDir(name string) ([]fs.DirEntry, error) {
 	}
 	var out []fs.DirEntry
 	for _, k := range n.Kids {
-		out = append(out, info{k})
+		out = append(out, info{k, true})
 	}
 	return out, nil
 }
@@ -546,7 +560,17 @@ func (e fakeEx) Extract(ctx context.Context, in *filesystem.ScanInput) (inventor
 	}
 	var inv inventory.Inventory
 	for _, id := range o.Pkgs {
-		inv.Packages = append(inv.Packages, &extractor.Package{Name: fmt.Sprintf("n%d", id/3), Version: fmt.Sprintf("v%d", id%3), Locations: []string{in.Path}, Metadata: id})
+		locs := []string{in.Path}
+		if id%4 == 3 {
+			// a second location, reported AFTER the file itself (i.e. usually out of order): sortResults must sort
+			// each package's locations before it compares packages by them
+			k := 0
+			for _, b := range []byte(in.Path) {
+				k += int(b)
+			}
+			locs = append(locs, "00/"+string(rune('a'+k%7)))
+		}
+		inv.Packages = append(inv.Packages, &extractor.Package{Name: fmt.Sprintf("n%d", id/3), Version: fmt.Sprintf("v%d", id%3), Locations: locs, Metadata: id})
 	}
 	if o.Err {
 		return inv, errors.New("extract-error")
@@ -628,11 +652,11 @@ func Run(c *Case, mk func(*scalibr.ScanConfig), slow time.Duration) string {
 		var pk, st []string
 		for _, p := range r.Inventory.Packages {
 			ex := p.Extractor.Name()[1:]
-			loc := "?"
-			if len(p.Locations) == 1 {
-				loc = hexPath(p.Locations[0])
+			ls := make([]string, len(p.Locations))
+			for i, l := range p.Locations {
+				ls[i] = hx.Hex(l)
 			}
-			pk = append(pk, fmt.Sprintf("%d@%s@%s", p.Metadata.(int), ex, loc))
+			pk = append(pk, fmt.Sprintf("%d@%s@%s", p.Metadata.(int), ex, strings.Join(ls, "+")))
 		}
 		for _, s := range r.PluginStatus {
 			x := "ok"
